@@ -646,20 +646,23 @@ where
         // TODO: does not handle unrealistically large buffers
         let offset = to.byte as i64 - self.position.byte as i64;
         let pos = self.buf_pos.start as i64 + offset;
-        self.position = to.clone();
-        self.state = State::Positioned;
 
         if pos >= 0 && pos < (self.get_buf().len() as i64) {
             // position reachable within buffer -> no actual seeking necessary
+            self.position = to.clone();
+            self.state = State::Positioned;
             self.search_pos = pos as usize;
             self.buf_pos.reset(pos as usize);
             return Ok(());
         }
 
+        // if seeking fails, the reader remains unchanged
         self.buf_reader.seek(io::SeekFrom::Start(to.byte))?;
-        fill_buf(&mut self.buf_reader)?;
+        self.position = to.clone();
+        self.state = State::Positioned;
         self.search_pos = 0;
         self.buf_pos.reset(0);
+        fill_buf(&mut self.buf_reader)?;
         Ok(())
     }
 }
